@@ -63,9 +63,10 @@ CASE_BUDGET_S = 60
 ULPS = 64
 EPS = float(np.finfo(np.float32).eps)
 PROFILES = ["scalar", "array", "array", "pytree", "pytree", "int"]
-# Operation classes that fail on the pinned tree and that the lead may want to rule in or out of the claim as a block
-# (custom_jvp functions called at top level, lax.top_k / lax.sort_key_val, cond with several outputs, singular
-# derivative at a symbolic-zero value).  They are generated at top level only, so that the bisection names them.
+# Operation classes that failed on the snapshot tree (custom_jvp functions called at top level, lax.top_k /
+# lax.sort_key_val, cond with several outputs or with an operand forwarded to its output: all repaired by fix commits)
+# or still fail (singular derivative at a symbolic-zero value: known finding).  They are generated at top level only,
+# so that the bisection names the class and not an enclosing cond / call.
 INCLUDE_FAIL_PRONE_CLASSES = True
 EAGER_EVERY = 20  # every 20th program runs op by op (as at a prompt, ~10x the cost: one XLA compile per primitive);
 # the others under jax.jit, oracle and genjax alike
